@@ -40,7 +40,7 @@ CHECKS = {
  "C12": ("symbolic execution (CrossHair core + z3) of rrulebase.__getitem__/__contains__/count/before/after/xafter/between over a carrier with solver-integer instants and symbolic query arguments, compared with Python list semantics; path-exhaustive per cell",
          "model_checking",
          "Bounded symbolic model checking: sequences of 0..4 symbolic instants, symbolic query instants (so equal-to-element / between / outside cases are solver cases), indices and slice bounds over -n-2..n+2 incl. None, inc both ways, after a prior query that varies the cache state.",
-         "Trusted: carrier is rruleset with integer rdates (the query code is rrulebase's and type-agnostic); replace() is outside; each path witness replayed natively.", "§5 C12", "chx"),
+         "Trusted: carrier is rruleset with integer rdates (the query code is rrulebase's and type-agnostic); long-sequence cells (real rrule/rruleset, 0..25 daily occurrences, partially filled cache) and replace() cells (14 base rules x 30 named parameters vs the rule built afresh) pin every input per path and run natively; each path witness replayed natively.", "§5 C12", "chx"),
  "C11": ("symbolic schedules explored by CrossHair core + z3: (a) run-length-encoded interleavings of 2-3 live iterators and queries over the real _iter_cached with a model mutex; (b) _iter_cached re-parsed and rewritten (AST) into a step generator with a pre-emption point before every statement, two logical threads, switch points as solver variables; path-exhaustive per cell",
          "model_checking",
          "Bounded model checking of schedules: every schedule in the stated vocabulary/pre-emption bound is a path; each checks that every iterator/thread observes exactly the uncached sequence, nothing raises, no deadlock, the mutex is free at quiescence.",
